@@ -235,3 +235,46 @@ def encode_primary_raw(p, crc):
         a += [p['fragment_offset'], p['total_adu_length']]
     a.append(crc)
     return a
+
+
+def bpsec_cose_aad(bundle, sec_source, scope, target, addl_protected=b''):
+    ''' External AAD of draft-ietf-bpsec-cose section 2.5.1, built from a *decoded* bundle: encoded security source,
+    canonical scope map, then per scope entry in CBOR key order the primary block (whole encoding) or the
+    metadata (type, number, flags) / data of a canonical block, then the additional protected parameters. '''
+    out = enc(sec_source) + enc_canonical_map(scope)
+    for k in sorted(scope, key=lambda k: (k < 0, abs(k))):
+        fl = scope[k]
+        if k == 0:
+            if fl & 1:
+                p = bundle['primary']
+                out = out + enc(encode_primary_raw(p, p.get('crc')) if 'crc' in p else encode_primary_raw(p, None)[:-1])
+            continue
+        blk = target if k == -1 else [b for b in bundle['blocks'] if bool(b['num'] == k)][0]
+        if fl & 1:
+            out = out + enc(blk['type']) + enc(blk['num']) + enc(blk['flags'])
+        if fl & 2:
+            out = out + enc(blk['data'])
+    return out + enc(addl_protected)
+
+
+def enc_canonical_map(m):
+    keys = sorted(m, key=lambda k: (k < 0, abs(k)))
+    out = bytes([0xa0 + len(keys)])
+    for k in keys:
+        out = out + enc(k) + enc(m[k])
+    return out
+
+
+def read_secblock(data):
+    ''' RFC 9172 abstract security block: CBOR sequence targets, context id, flags, [source], [parameters], results. '''
+    from ..engine import SBuf, blen
+    rd = symcbor._Rd(data if isinstance(data, SBuf) else SBuf(list(SBuf.of(data))))
+    items = []
+    while bool(blen(rd.buf) != 0):
+        items.append(symcbor._dec(rd))
+    targets, ctxid, flags = items[0], items[1], items[2]
+    rest = items[3:]
+    source = rest.pop(0)
+    params = rest.pop(0) if bool((flags & 1) != 0) else []
+    results = rest.pop(0)
+    return dict(targets=targets, context=ctxid, flags=flags, source=source, params=params, results=results)
